@@ -86,7 +86,9 @@ EvDesignators ==
                    r == E.res[i]
                    got == IF r.k = "ok" THEN (IF r.cps = <<65>> THEN "ok" ELSE IF r.cps = <<>> THEN "okEmpty" ELSE "wrong")
                           ELSE IF r.k \in {"rej", "end"} THEN "rejected" ELSE r.k
-               IN want = "skip" \/ got = want
+               \* a well-formed designator of a character set this model does not know must not be REJECTED as a designator;
+               \* whether the implementation can then interpret the body is outside the property
+               IN want = "skip" \/ got = want \/ (want = "notimpl" /\ got \notin {"rejected", "panic"})
           THEN {} ELSE {"C15.designatorRead"})
   /\ UNCHANGED v_rd
 EvTruncated ==
@@ -135,7 +137,10 @@ EvEciSpans ==
          head == IF E.macro = 236 THEN <<91, 41, 62, 30, 48, 53, 29>> ELSE IF E.macro = 237 THEN <<91, 41, 62, 30, 48, 54, 29>> ELSE <<>>
          trail == IF E.macro = 0 THEN <<>> ELSE <<30, 4>>
          want == IF firstBad = 0 THEN "ok" ELSE IF ~CsSupported(eciOf(firstBad)) /\ (Len(chs[firstBad].bytes) > 0 \/ TRUE) THEN "notimpl" ELSE "charset"
+         \* a chunk under a character set this model does not know: only "no panic, no designator error" is required
+         unknownSet == \E k \in 1..Len(chs) : ~CsSupported(eciOf(k))
      IN Step(IF (want = "ok" /\ E.res.k = "ok" /\ E.res.cps = head \o body \o trail) \/ (want # "ok" /\ E.res.k = want)
+                \/ (unknownSet /\ E.res.k \in {"ok", "notimpl", "charset"})
              THEN {} ELSE {"C15.eciSpans"})
   /\ UNCHANGED v_rd
 
